@@ -33,7 +33,7 @@ static const int TYPES2[] = {VNACAL_T8, VNACAL_U8, VNACAL_TE10, VNACAL_UE10, VNA
 
 // tolerances (calibrated with track_max, see notes/agent-cal.md)
 static const double TOL_LINEAR = 1e-9;     // corrected DUT of a calibration solved from known standards
-static const double TOL_ITER = 1e-4;       // ... solved together with unknown parameters (iterative, p_tolerance 1e-6)
+static const double TOL_ITER = 3e-4;       // ... solved together with unknown parameters (iterative, p_tolerance 1e-6)
 static const double TOL_CLONE = 1e-9;      // history with deletes vs. clone without
 
 struct Box {                 // 8-term error box: M = El + Er (I - S Em)^-1 S Et, all four diagonal
